@@ -243,8 +243,31 @@ CertVerdict(c, e) ==
            ELSE "ok"
   ELSE "unknown_certificate"
 
+(***************************************************************************)
+(* C04 laws on RECORDED results only (no reference operator involved in     *)
+(* the recorded values): with r = reverse, i = grade involution, c = Clifford*)
+(* conjugation as the library computed them,                                  *)
+(*   r(r x) = x, i(i x) = x, c(c x) = x;  r(xy) = r(y) r(x),  c(xy) = c(y) c(x),*)
+(*   i(xy) = i(x) i(y);  c = r after i.                                          *)
+(* The products on the right are taken with the reference GP of the recorded  *)
+(* involuted operands, the left sides are the library's involutions of the     *)
+(* library's product.                                                            *)
+(***************************************************************************)
+LawVerdict(c, e) ==
+  LET D(mv) == DecodeMV(c, e.ring, mv)
+      x == D(e.x) y == D(e.y) IN
+  IF e.raised # "" THEN "raised_on_total_operator"
+  ELSE IF ~MR!SameElement(D(e.rrx), x) \/ ~MR!SameElement(D(e.iix), x) \/ ~MR!SameElement(D(e.ccx), x) THEN "involution_applied_twice_is_not_the_identity"
+  ELSE IF ~MR!SameElement(D(e.rxy), MR!GP(c, D(e.ry), D(e.rx))) THEN "reverse_is_not_an_antiautomorphism"
+  ELSE IF ~MR!SameElement(D(e.cxy), MR!GP(c, D(e.cy), D(e.cx))) THEN "conjugate_is_not_an_antiautomorphism"
+  ELSE IF ~MR!SameElement(D(e.ixy), MR!GP(c, D(e.ix), D(e.iy))) THEN "involute_is_not_an_automorphism"
+  ELSE IF ~MR!SameElement(D(e.cx), D(e.rix)) THEN "conjugate_is_not_reverse_of_involute"
+  ELSE IF ~MR!SameElement(D(e.xy), MR!GP(c, x, y)) THEN "value_differs_from_definition"
+  ELSE "ok"
+
 Verdict(e) ==
   CASE e.kind = "op" -> OpEventVerdict(CC, e)
+    [] e.kind = "law" -> LawVerdict(CC, e)
     [] e.kind = "cert" -> CertVerdict(CC, e)
     [] e.kind = "resolve" -> (IF e.container # e.expected_container THEN "sequence_operand_did_not_yield_the_sequence_of_results"
                                ELSE OpEventVerdict(CC, e))
